@@ -311,9 +311,10 @@ def run(prop, tier, replay=None):
     kinds = ["agg", "hedge", "closeroll"]
     cases = [gen_case(rng, kinds[i % 3]) for i in range(n)]
     if replay:
-        import pickle
-
-        cases = [pickle.load(open(replay, "rb"))]
+        c = json.load(open(replay))["case"]
+        if isinstance(c.get("trades"), dict):  # keys were written as strings
+            c["trades"] = {(int(k) if str(k).lstrip("-").isdigit() else k): v for k, v in c["trades"].items()}
+        cases = [c]
     traces = common.pool_map(run_case, cases, chunksize=8)
     for i, t in enumerate(traces):
         t["tid"] = i + 1
